@@ -220,7 +220,13 @@ func (r *Report) Finish(t testing.TB) {
 		t.Logf("verifkit: VERIF_OUT unset; report:\n%s", data)
 		return
 	}
-	if err := os.WriteFile(filepath.Join(dir, r.Unit+".json"), data, 0o644); err != nil {
+	// the driver runs one test function per unit and names the unit in VERIF_UNIT (a monitor may serve two properties
+	// under two unit names): the record goes where the driver looks for it
+	name := r.Unit
+	if u := os.Getenv("VERIF_UNIT"); u != "" {
+		name = u
+	}
+	if err := os.WriteFile(filepath.Join(dir, name+".json"), data, 0o644); err != nil {
 		t.Fatalf("verifkit: cannot write report: %v", err)
 	}
 	t.Logf("verifkit: %s/%s evaluations=%d distinct=%d violations=%d inconclusive=%d wall=%.1fs",
